@@ -427,3 +427,113 @@ def r6_arguments_kept_whole(ck, P):
                 ck.ok(R, where)
     if n == 0:
         ck.incomplete(R, 'no store of an integer argument into a glyph_t field found in the insertion path')
+
+
+def _slot_index(f, load):
+    """(base value operand, constant offset) of the index of a glyphs[] slot access: glyphs[(X + c) & HASH_MASK]"""
+    y = f.v(load.a[0])
+    if y is None or y.op != 'getelementptr':
+        return None
+    idx = [st[1] for st in y.d.get('path', []) if st and st[0] in ('p', 'x') and isinstance(st[1], list) and st[1][0] == 'v']
+    if not idx:
+        return None
+    o = idx[-1]; z = f.v(o)
+    while z is not None and z.op in ('zext', 'sext', 'trunc'):
+        o = z.a[0]; z = f.v(o)
+    if z is None or z.op != 'and':
+        return None
+    inner = [a for a in z.a if a[0] != 'c']
+    if len(inner) != 1:
+        return None
+    w = f.v(inner[0])
+    if w is not None and w.op in ('add', 'sub') and w.a[1][0] == 'c':
+        c = int(w.a[1][1]); c = c if w.op == 'add' else -c
+        if c >= 2 ** 31:
+            c -= 2 ** 32
+        return (tuple(w.a[0]), c)
+    return (tuple(inner[0]), 0)
+
+
+def r7_neighbour_in_probe_direction(ck, P):
+    """sibling agreement between the probing loops and the removal: a tombstone may be turned back into an empty slot when the slot that
+    FOLLOWS it in probe order is empty; probing advances by +1, so that slot is idx + 1."""
+    R = ck.rule('C17-R7', 'the emptiness test that licenses reclaiming tombstones in the removal routine looks at the slot one probe step after the removed entry (probe loops advance the index by +1, so glyphs[(idx + 1) & HASH_MASK]): looking the other way cuts the probe chain of a colliding entry that follows', floor=1)
+    u, ro = roles(P)
+    ins, rem = ro['insert'], ro['remove']
+    # probe step: the constant the insertion loop adds to its index
+    step = None
+    for x in ins.insts():
+        if x.op == 'add' and x.a[1][0] == 'c' and any(u_.op == 'phi' for u_ in ins.users(x)):
+            y = ins.v(x.a[0])
+            if y is not None and y.op == 'phi':
+                step = int(x.a[1][1])
+    if step is None:
+        ck.incomplete(R, 'probe step of the insertion loop not recognised'); return
+    ck.saw(rem)
+    n = 0
+    for x in rem.insts():
+        if x.op != 'icmp' or x.d['p'] not in ('eq', 'ne') or not any(a[0] == 'n' for a in x.a):
+            continue
+        o = [a for a in x.a if a[0] != 'n'][0]
+        ld = rem.v(o)
+        if ld is None or ld.op != 'load':
+            continue
+        si = _slot_index(rem, ld)
+        if si is None:
+            continue
+        n += 1
+        if si[1] == step:
+            ck.ok(R, '%s: empty-slot test at %s looks at index %+d (probe step %+d)' % (rem.name, x.loc(), si[1], step))
+        else:
+            ck.violation(R, rem.name, 'empty-slot test at %s' % x.loc(), '%s decides whether tombstones can be reclaimed from the slot at index %+d relative to the removed entry, but probing advances by %+d: an entry that collides with the removed one and sits right after it is cut off from its home slot - lookups miss it, it can be inserted twice and can no longer be removed' % (rem.name, si[1], step), x.loc())
+    if n == 0:
+        ck.incomplete(R, '%s: no empty-slot test found' % rem.name)
+
+
+def r8_thaw_thresholds(ck, P):
+    """T-TAB against the macro definitions: the table is dumped only above the high-water mark."""
+    R = ck.rule('C17-R8', 'in the thaw routine, every comparison with a constant that guards the call of the table-clearing routine compares with N_GLYPHS_HIGH_WATER, and the eviction loop runs while n_glyphs > N_GLYPHS_LOW_WATER: entries are dropped only above the high-water mark', floor=3)
+    u, ro = roles(P)
+    C = glyph_consts(); hi, lo = int(C['N_GLYPHS_HIGH_WATER']), int(C['N_GLYPHS_LOW_WATER'])
+    clr, rem = ro['clear'], ro['remove']
+    cnt = occupancy_counters(P)
+    ng = [c for c in cnt if any(k == 'delta' and d > 0 for k, d, x in _counter_updates(ro['insert']).get(c, []))]
+    NG = ng[0] if len(ng) == 1 else None
+    n = 0
+    for f in u.functions.values():
+        cs = [c for c in f.calls() if c.callee == clr.name]
+        rs = [c for c in f.calls() if c.callee == rem.name]
+        if not cs or not rs:
+            continue
+        ck.saw(f)
+        for c in cs:
+            for t, s in f.guard_edges(c.bb.id):
+                cc = f.v(t.a[0]) if t.a else None
+                if cc is None or cc.op != 'icmp':
+                    continue
+                ks = [int(a[1]) for a in cc.a if a[0] == 'c']
+                if not ks or ks[0] == 0:
+                    continue
+                n += 1
+                if ks[0] == hi:
+                    ck.ok(R, '%s: %s guarded by a comparison with %d at %s' % (f.name, clr.name, hi, cc.loc()))
+                else:
+                    ck.violation(R, f.name, 'guard of %s at %s' % (clr.name, cc.loc()), '%s dumps the whole table when a count exceeds %d; the high-water mark is %d (%d is %s): live entries - the most recently used ones included - are dropped from a cache that is below its high-water mark' % (f.name, ks[0], hi, ks[0], 'the low-water mark' if ks[0] == lo else 'neither mark'), cc.loc())
+        for c in rs:
+            for t, s in f.guard_edges(c.bb.id):
+                cc = f.v(t.a[0]) if t.a else None
+                if cc is None or cc.op != 'icmp':
+                    continue
+                ks = [int(a[1]) for a in cc.a if a[0] == 'c']
+                if not ks or ks[0] == 0:
+                    continue
+                y = f.v([a for a in cc.a if a[0] != 'c'][0])
+                lf = f.last_field(f.path(y.a[0])) if y is not None and y.op == 'load' else None
+                n += 1
+                want = lo if lf == NG else hi
+                if ks[0] == want:
+                    ck.ok(R, '%s: eviction guarded by a comparison with %d at %s' % (f.name, want, cc.loc()))
+                else:
+                    ck.violation(R, f.name, 'guard of the eviction at %s' % cc.loc(), '%s evicts under a comparison with %d where %d is required' % (f.name, ks[0], want), cc.loc())
+    if n == 0:
+        ck.incomplete(R, 'no threshold comparison found in the thaw routine')
